@@ -69,29 +69,43 @@ def binary_part(rep, ctx):
     shutil.rmtree(base, ignore_errors=True)
     bad = []
     n = 0
-    for name, files in BIN_TREES.items():
+    longest = [None]
+    order = ['mixed', 'same-names'] + [k for k in BIN_TREES if k not in ('mixed', 'same-names')]
+    for name in order:
+        files = BIN_TREES[name]
         root = os.path.join(base, name)
         for rel, src in files.items():
             p = os.path.join(root, 'contracts', rel)
             os.makedirs(os.path.dirname(p), exist_ok=True)
             open(p, 'w').write(src)
-        p = subprocess.run([binary, '--path', './contracts'], cwd=root, stdout=subprocess.PIPE, stderr=subprocess.PIPE, timeout=300)
-        n += 1
-        rp = os.path.join(root, 'solstat_report.md')
-        if p.returncode != 0 or not os.path.exists(rp):
-            bad.append((name, files, 'exit %d, no report' % p.returncode, ''))
-            continue
-        text = open(rp, encoding='utf-8', errors='replace').read()
-        for header, total, entries in report_blocks(text):
-            if entries == 0:
-                bad.append((name, files, 'the block %r is present although it lists no finding' % header, text))
-            elif total is not None and total != entries:
-                bad.append((name, files, 'the block %r announces %d but lists %d entries' % (header, total, entries), text))
+        # twice: in an empty working directory, and in one that holds the (longer) report of an earlier run over another
+        # tree - the file a user opens after the run is the report of THIS run, consistent in itself
+        for stale in (None, longest[0]):
+            rp = os.path.join(root, 'solstat_report.md')
+            if stale is not None:
+                open(rp, 'w', encoding='utf-8').write(stale)
+            elif os.path.exists(rp):
+                os.remove(rp)
+            p = subprocess.run([binary, '--path', './contracts'], cwd=root, stdout=subprocess.PIPE, stderr=subprocess.PIPE, timeout=300)
+            n += 1
+            how = '' if stale is None else ' (working directory holding the report of an earlier run, %d bytes)' % len(stale)
+            if p.returncode != 0 or not os.path.exists(rp):
+                bad.append((name, files, 'exit %d, no report' % p.returncode + how, '', stale))
+                continue
+            text = open(rp, encoding='utf-8', errors='replace').read()
+            for header, total, entries in report_blocks(text):
+                if entries == 0:
+                    bad.append((name, files, 'the block %r is present although it lists no finding' % header + how, text, stale))
+                elif total is not None and total != entries:
+                    bad.append((name, files, 'the block %r announces %d but lists %d entries' % (header, total, entries) + how, text, stale))
+            if stale is None and len(text) > len(longest[0] or ''):
+                longest[0] = text
     shutil.rmtree(base, ignore_errors=True)
     rep.coverage['binary_end_to_end'] = {'trees': n, 'inconsistent_reports': len(bad)}
-    for name, files, why, text in bad[:2]:
+    for name, files, why, text, stale in bad[:2]:
         rep.violation('solstat on the tree %r: %s' % (name, why),
-                      {'kind': 'S', 'input': {'tree': files, 'argv': ['--path', './contracts']}, 'report': text[:3000], 'mode': 'binary',
+                      {'kind': 'S', 'input': {'tree': files, 'argv': ['--path', './contracts'], 'report_present_before_the_run': stale},
+                       'report': text[:3000], 'mode': 'binary',
                        'theorem': 'category_iff / total_matches_entries (composition of analyze_dir and generate_report)'})
     return bool(bad)
 
@@ -126,6 +140,8 @@ def replay(obj):
             p = os.path.join(root, 'contracts', rel)
             os.makedirs(os.path.dirname(p), exist_ok=True)
             open(p, 'w').write(src)
+        if obj['input'].get('report_present_before_the_run') is not None:
+            open(os.path.join(root, 'solstat_report.md'), 'w', encoding='utf-8').write(obj['input']['report_present_before_the_run'])
         subprocess.run([binary] + obj['input']['argv'], cwd=root)
         text = open(os.path.join(root, 'solstat_report.md'), errors='replace').read() if os.path.exists(os.path.join(root, 'solstat_report.md')) else ''
         shutil.rmtree(root, ignore_errors=True)
